@@ -98,7 +98,13 @@ func ordAtom(cmp func(x, y *px.Sym) (int, bool), next atomFn) atomFn {
 	}
 }
 
+// ordUnordered: the two operands are unordered (a NaN is involved): every ordered comparison and == is false, != is true.
+const ordUnordered = 2
+
 func ordHolds(op token.Token, o int) bool {
+	if o == ordUnordered || o == -ordUnordered {
+		return op == token.NEQ
+	}
 	switch op {
 	case token.LSS:
 		return o < 0
